@@ -717,7 +717,42 @@ func canonOrEmpty(v *an.SV) string {
 	return v.Canon()
 }
 
+// c05RecordsAreStream: control batches are filtered by *RecordStream.ReadRecord only; the decoder must therefore
+// never publish anything else as rs.Records.
+func c05RecordsAreStream(p *load.Program, r *oblig.Report) {
+	const rule = "C05.R5 control batches are skipped"
+	fn := p.Func("protocol", "(*RecordSet).ReadFrom")
+	if fn == nil {
+		r.Lost(rule, "protocol.(*RecordSet).ReadFrom")
+		return
+	}
+	n := 0
+	ok := true
+	found := ""
+	an.EachInstr(fn, func(ins ssa.Instruction) {
+		st, isSt := ins.(*ssa.Store)
+		if !isSt {
+			return
+		}
+		fa, isFA := st.Addr.(*ssa.FieldAddr)
+		if !isFA || an.FieldName(fa.X.Type(), fa.Field) != "Records" || !an.NamedIs(deref(fa.X.Type()), protoPath, "RecordSet") {
+			return
+		}
+		n++
+		if an.IsNilConst(st.Val) {
+			return
+		}
+		mi, isMI := st.Val.(*ssa.MakeInterface)
+		if !isMI || !an.NamedIs(mi.X.Type(), protoPath, "RecordStream") {
+			ok = false
+			found = clean(an.Shape(st.Val))
+		}
+	})
+	r.Check(ok && n >= 1, rule, "protocol.(*RecordSet).ReadFrom publishes decoded records only as a *RecordStream", p.Pos(fn.Pos()), "rs.Records = stream (the stream is what hides control batches)", "also: "+found)
+}
+
 func c05CRCDominates(p *load.Program, r *oblig.Report) {
+	c05RecordsAreStream(p, r)
 	const rule = "C05.R4 checksum verified before records are exposed"
 	fn := p.Func("protocol", "(*RecordSet).readFromVersion2")
 	if fn != nil {
